@@ -170,6 +170,8 @@ def run_property(pid: str, tier: str, seed: int, jobs: int = None, only=None):
     by_backend: dict = {}
     undecided, violations, known_hits, drift = [], [], [], []
     replay_dir = os.path.join(VERIF, "replays", pid)
+    if os.environ.get("VERIF_NO_EVIDENCE") or os.path.realpath(loader.REPO) != "/repo":
+        replay_dir = os.path.join(VERIF, "replays", "scratch", pid)
     os.makedirs(replay_dir, exist_ok=True)
     if only is None:
         for old_f in glob.glob(os.path.join(replay_dir, "*.json")):
@@ -309,9 +311,14 @@ def run_property(pid: str, tier: str, seed: int, jobs: int = None, only=None):
     ev = {"property_id": pid, "tier": tier, "seed": seed, "level": level, "coverage": coverage,
           "assumptions": sorted(assumptions | set(meta.get("assumptions", []))),
           "wall_s": round(wall, 2), "violations": len(violations)}
-    os.makedirs(os.path.join(VERIF, "evidence"), exist_ok=True)
+    # evidence is only (re)written by a full run against /repo itself; scratch copies, seeded
+    # changes being tried out and --only runs leave the committed evidence alone
+    ev_dir = os.path.join(VERIF, "evidence")
+    if os.environ.get("VERIF_NO_EVIDENCE") or os.path.realpath(loader.REPO) != "/repo":
+        ev_dir = os.path.join("/tmp", "verif_scratch_evidence")
+    os.makedirs(ev_dir, exist_ok=True)
     if only is None:
-        with open(os.path.join(VERIF, "evidence", pid + ".json"), "w") as f:
+        with open(os.path.join(ev_dir, pid + ".json"), "w") as f:
             json.dump(ev, f, indent=1, default=str)
     for ln in lines:
         print(ln)
